@@ -1,3 +1,4 @@
+\* GENERATED by checks/c08.py from the constants printed by harness/src/bin/consts.rs -- do not edit
 SPECIFICATION Spec
 CONSTANTS
   CCB = 36
@@ -15,6 +16,10 @@ CONSTANTS
   Deltas = {48,49,50,51}
   Slack1 = {0,1,2}
   FarProbe = {0,1,2}
+  ProbeDeltas = {12,18,47,72}
+  ProbeOffD = {42}
+  OffSoon = {0,1,2,3,4,5,6}
+  BigHops = {0,24}
 INVARIANTS TypeOK NeverShowOrForwardTooSoon ClaimableBelowDeadline OnChainInTimeOutbound OnChainInTimeInbound WinInboundRace BoundedLoss FailBackAfterBurial EmitScripts
 CONSTRAINT Horizon
 CHECK_DEADLOCK FALSE
